@@ -371,6 +371,45 @@ impl<'a> Cur<'a> {
                 .unwrap()
             }
             "hgarbage" => Binary::from(b"{\"nonsense\":{}}".to_vec()),
+            // payloads that are well-formed messages of the RECEIVING contract's execute interface but not hook
+            // messages (to the model: garbage): the router's internal single hop / minimum-receive assertion, the
+            // pair's own execute-swap and the factory-only decimals update
+            "hraw_rop" => {
+                let o = self.asset();
+                let a = self.asset();
+                let to = self.opt_addr();
+                to_binary(&RouterExecuteMsg::ExecuteSwapOperation {
+                    operation: SwapOperation::HaloSwap {
+                        offer_asset_info: o,
+                        ask_asset_info: a,
+                    },
+                    to,
+                })
+                .unwrap()
+            }
+            "hraw_rassert" => {
+                let a = self.asset();
+                let prev = self.num();
+                let min = self.num();
+                let rcv = self.addr();
+                to_binary(&RouterExecuteMsg::AssertMinimumReceive {
+                    asset_info: a,
+                    prev_balance: prev.into(),
+                    minimum_receive: min.into(),
+                    receiver: rcv,
+                })
+                .unwrap()
+            }
+            "hraw_pdec" => {
+                let d = self.num();
+                let a = self.num();
+                let b = self.num();
+                to_binary(&PairExecuteMsg::UpdateNativeTokenDecimals {
+                    denom: denom_s(d),
+                    asset_decimals: [a as u8, b as u8],
+                })
+                .unwrap()
+            }
             _ => panic!("harness: bad hook"),
         }
     }
@@ -1342,7 +1381,18 @@ pub fn serve() {
                 let r = catch_unwind(AssertUnwindSafe(|| exec(w, &mut c)));
                 let (okflag, extras) = match r {
                     Ok(Ok(res)) => ("ok", swap_extras(&res)),
-                    Ok(Err(_)) => ("fail", vec![]),
+                    // a refused transaction reports the class of its error text (1 the pair's max-spread assertion, 2 its
+                    // max-slippage assertion, 0 anything else), so that "rejected by this guard" can be told from other refusals
+                    Ok(Err(msg)) => (
+                        "fail",
+                        vec![if msg.contains("Max spread assertion") {
+                            1
+                        } else if msg.contains("Max slippage assertion") {
+                            2
+                        } else {
+                            0
+                        }],
+                    ),
                     Err(p) => {
                         let msg = if let Some(s) = p.downcast_ref::<&str>() {
                             s.to_string()
